@@ -176,9 +176,11 @@ def judge (force : Nat) (st : St) (method path : Bytes) (hs : List (Bytes × Byt
   -- the performer's watchdog tripped: this ONE request contacted the origin 300 times (the handler re-enters
   -- itself without bound; without the watchdog it never answers)
   let st1 := if o.contacts ≥ 300 then
-      add st1 ["bad:C05:request-never-answered-(handler-re-enters-itself-without-bound)",
-               "bad:C13:failing-origin-request-never-answered-(handler-re-enters-itself-without-bound)",
-               "bad:C08:stale-if-error-allowance-not-honoured-(origin-contacted-without-bound)"] [] "unbounded-reentry" else st1
+      add st1 (["bad:C05:request-never-answered-(handler-re-enters-itself-without-bound)",
+               "bad:C13:request-never-answered-(handler-re-enters-itself-without-bound)",
+               "bad:C08:origin-contacted-without-bound-for-one-request"] ++
+               (if o.contactINM.any (· ≠ []) then ["bad:C09:revalidation-never-ends-(handler-re-enters-itself-without-bound)"] else []))
+        [] "unbounded-reentry" else st1
   if o.framing == "noresponse" then
     -- nothing came back within the client's deadline: the key is wedged (C13), the request unanswered (C05)
     add st1 ["bad:C13:request-got-no-response-the-key-is-wedged", "bad:C05:request-got-no-response"] [] "noresponse" else
@@ -365,6 +367,6 @@ def hSysC : Handler := fun impl => do
   let label := "+".intercalate ((mlabels ++ st.labels).eraseDups.take 6)
   return { model := " ".intercalate mtoks, oracle := oracle, cls := cls, label := if label = "" then "-" else label }
 
-def handlers : List (String × Handler) := [ ("sysc", hSysC), ("kf.C08-c", hSysC), ("kf.C05-a", hSysC), ("kf.C09-e.sysc", hSysC), ("kf.C09-b.sysc", hSysC) ]
+def handlers : List (String × Handler) := [ ("sysc", hSysC), ("kf.C08-c", hSysC), ("kf.C09-g", hSysC), ("kf.C05-a", hSysC), ("kf.C09-e.sysc", hSysC), ("kf.C09-b.sysc", hSysC) ]
 
 end H.SysC
